@@ -516,6 +516,10 @@ class Cfg:
         self.unique_names = False
         self.typedef_same_ns = False  # typedefs are placed in the namespace of their template
         self.p_param_named_inst = 0.12  # an instantiation spelled like another parameter of the same template
+        self.class_pool = None        # restrict class names to this pool (same names in different namespaces)
+        self.p_virtual = 0.3
+        self.p_suffix = 0.5           # chance that a class name gets a numeric suffix although it is free
+        self.extra_kinds = []         # declaration kinds to favour
         self.matlab_safe = False      # avoid names that trigger known MATLAB-generator defects (x_set_y)
         self.unique_ns = False        # no two sibling namespaces share a name (no re-opened namespaces)
         self.c02_safe = False        # stay inside the guard of C02_inst_eq_subst_partial (see Props/C02.lean)
@@ -528,6 +532,7 @@ class Gen:
         self.cfg = cfg or Cfg()
         self.counter = 0
         self.in_class = False
+        self.scopes = [dict(classes=set(), funcs=[])]   # per-namespace names (innermost last)
         self.ns_depth = 0            # namespace depth of the declaration being generated
         self.nest = 0                # template-argument nesting depth of the type being generated
         self.noscope = set()         # template parameters that must not be used as `T::X` (templated instantiations)
@@ -538,7 +543,7 @@ class Gen:
         return "%s%d" % (base, self.counter) if self.rng.random() < 0.5 else base
 
     def cname(self):
-        return self.rng.choice(UPPER)
+        return self.rng.choice(self.cfg.class_pool or UPPER)
 
     def nsname(self):
         return self.rng.choice(LOWER)
@@ -696,7 +701,14 @@ class Gen:
     # --- members
     def gen_enum(self):
         rng = self.rng
-        return Enum(rng.choice(["enum", "enum", "enum class", "enum struct"]), self.cname(),
+        name = self.cname()
+        if self.cfg.unique_names and not self.in_class:
+            used = self.scopes[-1]["classes"]
+            while name in used:
+                self.counter += 1
+                name = "%s%d" % (name.rstrip("0123456789"), self.counter)
+            used.add(name)
+        return Enum(rng.choice(["enum", "enum", "enum class", "enum struct"]), name,
                     rng.sample(ENUMERATORS, rng.randint(1, 5)))
 
     def gen_member(self, cname, ctparams):
@@ -757,8 +769,16 @@ class Gen:
         rng = self.rng
         name = self.cname()
         if self.cfg.unique_names:
-            self.counter += 1
-            name = "%s%d" % (name, self.counter)
+            # unique within its namespace (other namespaces may declare a class of the same name)
+            used = self.scopes[-1]["classes"]
+            tries = 0
+            while name in used and tries < 4:
+                name = self.cname()
+                tries += 1
+            if name in used or rng.random() < self.cfg.p_suffix:
+                self.counter += 1
+                name = "%s%d" % (name, self.counter)
+            used.add(name)
         tmpl = self.gen_tmpl() if rng.random() < self.cfg.p_template else None
         ctp = [p.name for p in tmpl] if tmpl else []
         parent = None
@@ -771,7 +791,7 @@ class Gen:
             if parent.params is None:
                 parent = Ty(parent.ns, parent.name if ' ' not in parent.name else "Base", None, False, '', False)
         members = [self.gen_member(name, ctp) for _ in range(rng.randint(0, self.cfg.max_members))]
-        return Class(tmpl, rng.random() < 0.3, name, parent, members)
+        return Class(tmpl, rng.random() < self.cfg.p_virtual, name, parent, members)
 
     def gen_decl(self, depth):
         self.ns_depth = depth
@@ -787,6 +807,7 @@ class Gen:
             kinds.append('enum')
         if self.cfg.allow_var:
             kinds.append('var')
+        kinds += list(self.cfg.extra_kinds)
         if depth < self.cfg.max_depth:
             kinds += ['ns', 'ns']
         k = rng.choice(kinds)
@@ -795,7 +816,12 @@ class Gen:
         if k == 'func':
             tmpl = self.gen_tmpl() if rng.random() < self.cfg.p_template else None
             tps = tuple(p.name for p in tmpl) if tmpl else ()
-            return Decl('func', tmpl=tmpl, ret=self.gen_ret(tps), name=self.ident(MNAMES), args=self.gen_args(tps))
+            fname = self.ident(MNAMES)
+            prev = self.scopes[-1]["funcs"]
+            if prev and rng.random() < 0.3:
+                fname = rng.choice(prev)      # an overload, not necessarily adjacent to the first declaration
+            prev.append(fname)
+            return Decl('func', tmpl=tmpl, ret=self.gen_ret(tps), name=fname, args=self.gen_args(tps))
         if k == 'fwd':
             tn = TN([self.nsname() for _ in range(rng.choice([0, 0, 1, 2]))], self.cname())
             par = None
@@ -817,7 +843,13 @@ class Gen:
                                        self.gen_default() if rng.random() < 0.5 else None))
         if k == 'ns':
             n = rng.randint(0, self.cfg.max_decls)
-            return Decl('ns', name=self.nsname(), content=[self.gen_decl(depth + 1) for _ in range(n)])
+            self.scopes.append(dict(classes=set(), funcs=[]))
+            try:
+                content = [self.gen_decl(depth + 1) for _ in range(n)]
+            finally:
+                self.scopes.pop()
+                self.ns_depth = depth
+            return Decl('ns', name=self.nsname(), content=content)
         raise ValueError(k)
 
     def gen_module(self):
